@@ -36,12 +36,12 @@ PROPS = {
         ],
         "assumptions": [
             "behavioural conclusion (C11_full) is proved for every abstract machine that is Equivariant under the converter's offset map (Spec/Reloc.lean); Equivariant for the real VM awaits Model/VM",
-            "C11_partial assumes the converted source map answers SourcePos queries like the original (true when every source-map key is an instruction offset) and that the converted stream ends at newOff(len)",
+            "C11_partial assumes the converted source map answers SourcePos queries like the original (true when every source-map key is an instruction offset)",
             "convBytecodeV1ToV2 = convFn on Main and on every *CompiledFunction constant; decodeBytecodeV2 itself belongs to C04/C18",
             "MakeInstruction arguments are modelled as naturals (ReadOperands yields non-negative ints on 64-bit platforms)",
         ],
         "partial": [
-            {"theorem": "C11_partial", "full": "C11_full", "missing": "Machine.Equivariant for the real VM model; source-map lookup agreement hpos; end-offset agreement hend"},
+            {"theorem": "C11_partial", "full": "C11_full", "missing": "Machine.Equivariant for the real VM model; source-map lookup agreement hpos"},
         ],
     },
 }
